@@ -33,6 +33,8 @@ pub struct Case {
     pub url: usize,
     pub id: usize,
     pub len: usize,
+    /// Tracker outcomes before the good reply: 0 refused, 1 HTTP 500, 2 garbage body, 3 failure reason.
+    pub faults: Vec<usize>,
 }
 
 fn metainfo(url: &str, total: u64, hash: [u8; 20]) -> Metainfo {
@@ -99,12 +101,21 @@ fn split_url(u: &str) -> (String, Vec<(Vec<u8>, Vec<u8>)>) {
     (base, pairs)
 }
 
-pub fn run_case(rt: &tokio::runtime::Runtime, c: &Case) -> Result<String, String> {
+/// Runs the real tracker client until its announce succeeds; returns every request it sent.
+pub fn run_case(rt: &tokio::runtime::Runtime, c: &Case) -> Result<Vec<String>, String> {
     let captured: Rc<RefCell<Vec<String>>> = Rc::new(RefCell::new(vec![]));
     let cap2 = captured.clone();
+    let faults = c.faults.clone();
     rdest::verif::set_http(Some(Box::new(move |req: &reqwest::Request| {
+        let n = cap2.borrow().len();
         cap2.borrow_mut().push(format!("{} {}", req.method(), req.url().as_str()));
-        httpfake::respond(200, b"d8:intervali900e5:peerslee".to_vec())
+        match faults.get(n) {
+            Some(0) => httpfake::refused(),
+            Some(1) => httpfake::respond(500, b"oops".to_vec()),
+            Some(2) => httpfake::respond(200, b"<html>".to_vec()),
+            Some(_) => httpfake::respond(200, b"d14:failure reason4:busye".to_vec()),
+            None => httpfake::respond(200, b"d8:intervali900e5:peerslee".to_vec()),
+        }
     })));
     let m = metainfo(URLS[c.url], LENGTHS[c.len], c.hash);
     let id = *IDS[c.id];
@@ -121,10 +132,10 @@ pub fn run_case(rt: &tokio::runtime::Runtime, c: &Case) -> Result<String, String
         Err(p) => Err(format!("tracker client panicked: {}", p)),
         Ok(_) => {
             let cap = captured.borrow();
-            if cap.len() != 1 {
-                return Err(format!("{} requests sent for one successful announce", cap.len()));
+            if cap.len() != c.faults.len() + 1 {
+                return Err(format!("{} requests sent for {} failed announces and a good one", cap.len(), c.faults.len()));
             }
-            Ok(cap[0].clone())
+            Ok(cap.clone())
         }
     }
 }
@@ -202,10 +213,39 @@ pub fn run(ctx: &Ctx) -> Outcome {
                     if ctx.tier == core::Tier::Quick && url != 0 && (id != 0 || len != 1) {
                         continue;
                     }
-                    cases.push(Case { hash: *h, url, id, len });
+                    cases.push(Case { hash: *h, url, id, len, faults: vec![] });
                 }
             }
         }
+    }
+    // retries: every fault word of length <= 2 (thorough: <= 3) before the good reply, for every
+    // URL / id / length with one hash, and one failure for every hash
+    let mut words: Vec<Vec<usize>> = vec![];
+    for a in 0..4 {
+        words.push(vec![a]);
+        for b in 0..4 {
+            words.push(vec![a, b]);
+            if ctx.tier == core::Tier::Thorough {
+                for c in 0..4 {
+                    words.push(vec![a, b, c]);
+                }
+            }
+        }
+    }
+    for url in 0..URLS.len() {
+        for id in 0..IDS.len() {
+            for len in 0..LENGTHS.len() {
+                for w in &words {
+                    if ctx.tier == core::Tier::Quick && (id + len + w.len()) % 2 == 1 && url != 0 {
+                        continue;
+                    }
+                    cases.push(Case { hash: hs[7 % hs.len()], url, id, len, faults: w.clone() });
+                }
+            }
+        }
+    }
+    for (k, h) in hs.iter().enumerate() {
+        cases.push(Case { hash: *h, url: k % URLS.len(), id: 0, len: 1, faults: vec![k % 4] });
     }
     let res = core::par_map(
         &cases,
@@ -214,7 +254,10 @@ pub fn run(ctx: &Ctx) -> Outcome {
             httpfake::runtime()
         },
         |rt, _, c| match run_case(rt, c) {
-            Ok(req) => (Some(req.clone()), judge(c, &req)),
+            Ok(reqs) => {
+                let verdict = reqs.iter().enumerate().find_map(|(n, r)| judge(c, r).map(|(class, why)| (if n == 0 { class } else { "retry-request-differs" }, format!("request #{} of {}: {} [{}]", n + 1, reqs.len(), why, class))));
+                (Some(reqs.last().unwrap().clone()), verdict)
+            }
             Err(e) => (None, Some(("tracker-client-failed", e))),
         },
     );
@@ -224,13 +267,13 @@ pub fn run(ctx: &Ctx) -> Outcome {
             distinct.insert(r.clone());
         }
         if let Some((class, summary)) = v {
-            ctx.violation(class, summary.clone(), json!({"hash": core::hex(&c.hash), "url": c.url, "id": c.id, "len": c.len, "announce": URLS[c.url]}));
+            ctx.violation(class, summary.clone(), json!({"hash": core::hex(&c.hash), "url": c.url, "id": c.id, "len": c.len, "faults": c.faults, "announce": URLS[c.url]}));
         }
     }
     let mut o = Outcome::new("exploration");
     o.set("evaluations", json!(cases.len()));
     o.set("distinct_nontrivial", json!(distinct.len()));
-    o.set("rule", json!("info-hash = a fixed 20-byte pattern with every byte value 0..=255 substituted at the listed positions, plus all-equal hashes; x 5 announce URLs (plain, port+path, with one / two query parameters, trailing '?') x 5 alphanumeric peer ids x total lengths {0,1,2^40} (quick: ids/lengths only vary for the first URL). Each case runs the real TrackerClient::run over the HTTP seam; distinct_nontrivial = number of distinct request URLs captured."));
+    o.set("rule", json!("info-hash = a fixed 20-byte pattern with every byte value 0..=255 substituted at the listed positions, plus all-equal hashes; x 5 announce URLs (plain, port+path, with one / two query parameters, trailing '?') x 5 alphanumeric peer ids x total lengths {0,1,2^40} (quick: ids/lengths only vary for the first URL). Plus retries: every word of <= 2 (thorough 3) failed announces (refused / HTTP 500 / garbage / failure reason) before the good reply for every URL, id and length, and one failure for every hash; EVERY request of a case is judged, not only the first. Each case runs the real TrackerClient::run over the HTTP seam (paused clock, so the 1 s retry delay is virtual); distinct_nontrivial = number of distinct request URLs captured."));
     o.set("hashes", json!(hs.len()));
     let picks = ctx.seeded_pick(cases.len(), 4);
     o.set("samples", Value::Array(picks.iter().map(|i| json!({"announce": URLS[cases[*i].url], "hash": core::hex(&cases[*i].hash), "request": res[*i].0})).collect()));
@@ -246,12 +289,12 @@ pub fn replay(_ctx: &Ctx, r: &Value) -> i32 {
     for i in 0..20 {
         hash[i] = u8::from_str_radix(&hexs[2 * i..2 * i + 2], 16).unwrap();
     }
-    let c = Case { hash, url: r["url"].as_u64().unwrap() as usize, id: r["id"].as_u64().unwrap() as usize, len: r["len"].as_u64().unwrap() as usize };
+    let c = Case { hash, url: r["url"].as_u64().unwrap() as usize, id: r["id"].as_u64().unwrap() as usize, len: r["len"].as_u64().unwrap() as usize, faults: r["faults"].as_array().map(|a| a.iter().map(|x| x.as_u64().unwrap() as usize).collect()).unwrap_or_default() };
     let rt = httpfake::runtime();
     let req = run_case(&rt, &c);
-    println!("announce URL: {}\nrequest: {:?}", URLS[c.url], req);
+    println!("announce URL: {}\ntracker outcomes before the good reply: {:?}\nrequests: {:#?}", URLS[c.url], c.faults, req);
     match req {
-        Ok(req) => match judge(&c, &req) {
+        Ok(reqs) => match reqs.iter().find_map(|r| judge(&c, r)) {
             Some((class, s)) => {
                 println!("VIOLATION property=C18 replay=<this file>\n  class={} {}", class, s);
                 1
